@@ -2,9 +2,10 @@
 # For every stored seeded change: apply to a scratch copy, run the checks listed in meta.json "caught_by",
 # and report whether each still raises a VIOLATION.  Output: /verif/seeded/REGRESSION.txt
 set -u
-OUT=/verif/seeded/REGRESSION.txt
+OUT=${REGRESS_OUT:-/verif/seeded/REGRESSION.txt}
+FILTER=${1:-*}   # optional glob over the directory names
 echo "# seeded change x check -> detected?   (repo $(git -C /repo rev-parse --short HEAD), verif $(git -C /verif rev-parse --short HEAD), $(date -u +%FT%TZ))" > $OUT
-for d in /verif/seeded/*/; do
+for d in /verif/seeded/$FILTER/; do
   n=$(basename $d)
   [ -f $d/patch.diff ] || continue
   for c in $(python3 -c "import json;print(' '.join(json.load(open('$d/meta.json'))['caught_by']))"); do
